@@ -47,6 +47,8 @@ func runC02(c *Ctx) {
 		c.L.Record(core.Undecided, "C02.twin-skeleton", "netutil", "package", "-", "not found")
 		return
 	}
+	ipExact := c02IPExact(c)
+	ipPortExact := c02IPPortExact(c)
 	// the IPv6 scanner classifies bytes with fromHexByte: exactly the 22 hex
 	// digits, for all 256 bytes (shared with the ARPA codec, C04/C05)
 	c.L.Floor("C02.hex-table", 1)
@@ -56,18 +58,24 @@ func runC02(c *Ctx) {
 	// the label-level twins are compared exactly: both are evaluated as Boolean
 	// functions of the label bytes and must equal the same grammar (c03exact.go)
 	exact := c03LabelsExact(c, "C02")
-	// the name-level twins are compared exactly on short ASCII names as well
-	// (C02.name-exact), but that comparison does not see where idna.ToASCII
-	// sits or which text the 253-byte limit measures: the skeleton comparison
-	// of the pair stays
-	c03NamesExact(c, "C02")
+	// the name-level twins are compared exactly as well (C02.name-exact: short
+	// ASCII names, and names around the 253-byte limit); where idna.ToASCII sits
+	// and which text is measured is C02.idna-discipline.  With both, the
+	// skeleton comparison of the pair is the fall-back.
+	nameExact := c03NamesExact(c, "C02")
+	if nameExact["ValidateHostname"] && nameExact["IsValidHostname"] {
+		c.L.Floor("C02.idna-discipline", 3)
+		if c02IdnaDiscipline(c, c.fn("netutil", "ValidateHostname"), c.fn("netutil", "IsValidHostname")) {
+			exact["ValidateHostname"], exact["IsValidHostname"] = true, true
+		}
+	}
 	for _, pr := range pairs {
 		fa, fb := c.fn("netutil", pr[0]), c.fn("netutil", pr[1])
 		if fa == nil || fb == nil {
 			continue
 		}
 		if exact[pr[0]] && exact[pr[1]] {
-			c.check(true, "C02.twin-skeleton", fb, pr[1]+" ≍ "+pr[0], nil, "both decided exactly against the same grammar (C02.label-exact): equal as Boolean functions of the label bytes for the lengths evaluated")
+			c.check(true, "C02.twin-skeleton", fb, pr[1]+" ≍ "+pr[0], nil, "both decided exactly against the same grammar (C02.label-exact / C02.name-exact): equal as Boolean functions of the bytes for the lengths evaluated")
 			continue
 		}
 		b := &skel.Builder{Pkg: sp, Family: c02Family}
@@ -96,9 +104,17 @@ func runC02(c *Ctx) {
 	if p := Get("C02"); p != nil {
 		p.Extra = map[string]any{"skeletons": samples}
 	}
-	c02GroupCount(c)
-	c02PortSplit(c)
-	c02IPDispatch(c)
+	// the structural rules about the IP scanners are the fall-back of the
+	// comparison with netip itself (c02ipexact.go)
+	if ipExact {
+		c.L.Floor("C02.ipv6.group-count", 0)
+	} else {
+		c02GroupCount(c)
+	}
+	c02PortSplit(c, ipPortExact)
+	if !ipExact {
+		c02IPDispatch(c)
+	}
 	// exact decisions of the IPv4 scanner and its octet predicate (c05exact.go);
 	// the structural rules are the fall-back
 	okLabel := v4LabelExact(c, "C02")
@@ -361,7 +377,7 @@ func atomWalk(f *ssa.Function, classify func(ssa.Value) (string, bool), asg map[
 	return nil, nil, "the function is not loop-free"
 }
 
-func c02PortSplit(c *Ctx) {
+func c02PortSplit(c *Ctx, wholeExact bool) {
 	c.L.Floor("C02.port.split", 2)
 	c.L.Floor("C02.port.number", 1)
 	sp := c.fn("netutil", "splitAddrPort")
@@ -533,7 +549,11 @@ func c02PortSplit(c *Ctx) {
 			c.check(bad == "", "C02.port.split", sp, what, nil, sprintf("decision table evaluated for all %d atom assignments against netip's splitAddrPort + bracket rule. %s", n, bad))
 		}
 	}
-	if top != nil && sp != nil {
+	if wholeExact {
+		// IsValidIPPortString as a whole is compared with netip.ParseAddrPort
+		c.L.Floor("C02.port.split", 0)
+	}
+	if top != nil && sp != nil && !wholeExact {
 		p0 := ssa.Value(top.Params[0])
 		var split *ssa.Call
 		for _, ci := range core.AllCalls(top) {
@@ -628,31 +648,87 @@ func c02DigitLoop(c *Ctx, f *ssa.Function, rule, what string, bound int64, inLoo
 	}
 	var acc *ssa.Phi
 	var next *ssa.Next
+	var phis []*ssa.Phi
 	for _, in := range head.Instrs {
 		switch x := in.(type) {
 		case *ssa.Phi:
-			if acc != nil {
-				c.undecided(rule, f, what, nil, "more than one loop-carried value")
-				return
-			}
-			acc = x
+			phis = append(phis, x)
 		case *ssa.Next:
 			next = x
 		}
 	}
 	hif, _ := head.Instrs[len(head.Instrs)-1].(*ssa.If)
-	if acc == nil || next == nil || !next.IsString || hif == nil {
-		c.undecided(rule, f, what, nil, "not a `for _, r := range s` loop with one accumulator")
-		return
-	}
-	if rg, ok := next.Iter.(*ssa.Range); !ok || rg.X != ssa.Value(f.Params[0]) {
-		c.check(false, rule, f, what, next, "the loop does not range over the whole parameter: the bytes outside the ranged window are not checked to be digits")
-		return
-	}
 	var rn ssa.Value
-	for _, r := range core.Refs(next) {
-		if ex, ok := r.(*ssa.Extract); ok && ex.Index == 2 {
-			rn = ex
+	byteLoop := false
+	if next == nil && len(phis) == 2 && hif != nil {
+		// the index form: for i := 0; i < len(s); i++ { c := s[i] ... } — a
+		// counter from 0 in steps of 1, compared with len of the parameter, used
+		// for nothing but s[i]
+		for k, ph := range phis {
+			start, step := int64(-1), int64(0)
+			for i, e := range ph.Edges {
+				if !head.Dominates(head.Preds[i]) {
+					start, _ = core.ConstInt(e)
+				} else if bo, ok := e.(*ssa.BinOp); ok && bo.Op == token.ADD && bo.X == ssa.Value(ph) {
+					step, _ = core.ConstInt(bo.Y)
+				}
+			}
+			cmp, isCmp := hif.Cond.(*ssa.BinOp)
+			if start != 0 || step != 1 || !isCmp || cmp.Op != token.LSS || cmp.X != ssa.Value(ph) {
+				continue
+			}
+			ln, isLen := cmp.Y.(*ssa.Call)
+			if !isLen || core.CalleeName(&ln.Call) != "builtin.len" || ln.Call.Args[0] != ssa.Value(f.Params[0]) {
+				continue
+			}
+			okUses := true
+			for _, r := range core.Refs(ph) {
+				switch x := r.(type) {
+				case *ssa.Lookup:
+					if x.X == ssa.Value(f.Params[0]) && x.Index == ssa.Value(ph) {
+						rn = x
+						continue
+					}
+					okUses = false
+				case *ssa.Index:
+					if x.X == ssa.Value(f.Params[0]) && x.Index == ssa.Value(ph) {
+						rn = x
+						continue
+					}
+					okUses = false
+				case *ssa.BinOp:
+					if x != cmp && !(x.Op == token.ADD && x.X == ssa.Value(ph)) {
+						okUses = false
+					}
+				case *ssa.DebugRef:
+				default:
+					okUses = false
+				}
+			}
+			if okUses && rn != nil {
+				acc, byteLoop = phis[1-k], true
+			}
+		}
+	} else if len(phis) == 1 {
+		acc = phis[0]
+	}
+	if len(phis) > 1 && !byteLoop {
+		c.undecided(rule, f, what, nil, "more than one loop-carried value")
+		return
+	}
+	if !byteLoop {
+		if acc == nil || next == nil || !next.IsString || hif == nil {
+			c.undecided(rule, f, what, nil, "not a `for _, r := range s` loop with one accumulator")
+			return
+		}
+		if rg, ok := next.Iter.(*ssa.Range); !ok || rg.X != ssa.Value(f.Params[0]) {
+			c.check(false, rule, f, what, next, "the loop does not range over the whole parameter: the bytes outside the ranged window are not checked to be digits")
+			return
+		}
+		for _, r := range core.Refs(next) {
+			if ex, ok := r.(*ssa.Extract); ok && ex.Index == 2 {
+				rn = ex
+			}
 		}
 	}
 	start := int64(-1)
@@ -690,6 +766,9 @@ func c02DigitLoop(c *Ctx, f *ssa.Function, rule, what string, bound int64, inLoo
 		return
 	}
 	rs := []int64{0, 47, 48, 49, 52, 53, 54, 55, 56, 57, 58, 65, 0x660, 0xFFFD, 0x10FFFF}
+	if byteLoop {
+		rs = []int64{0, 47, 48, 49, 52, 53, 54, 55, 56, 57, 58, 65, 0x80, 0xB0, 0xFF}
+	}
 	bad, undec := "", ""
 	cases := 0
 	for _, n0 := range ns {
